@@ -22,6 +22,7 @@ pub fn ev_name(e: &Ev) -> String {
     match e {
         Ev::P(i) => format!("P({})", VALS[*i]),
         Ev::N => "N".into(),
+        Ev::Er(0) => "FromNone".to_string(),
         Ev::Er(c) => format!("E{}", c),
     }
 }
@@ -49,7 +50,7 @@ impl<I: Clone, S> Subj for Sub<I, S> {
         self.inp.borrow_mut().next = match ev {
             Ev::P(i) => Ok(Some(Datum::new(Time(t), (self.mk)(VALS[*i])))),
             Ev::N => Ok(None),
-            Ev::Er(c) => Err(Error::Other(*c)),
+            Ev::Er(c) => Err(err_val(*c)),
         };
     }
     fn poison(&mut self) {
@@ -196,7 +197,7 @@ pub fn check_history(kind: usize, h: &[Ev], e: &mut Eng) -> u64 {
         e.checks += 1;
         let g = main[k].1;
         if g.is_err() {
-            let ok = matches!(h[k], Ev::Er(c) if Obs::err(&Error::Other(c)) == g);
+            let ok = matches!(h[k], Ev::Er(c) if Obs::err(&err_val(c)) == g);
             if !ok {
                 e.violation(&format!("stateful:{}:stale-error", name), k + 1, || {
                     format!("history [{}]: after event {} get() = {} although the input did not return that error at the most recent update", hist_name(&h[..=k]), k, g.show())
@@ -283,7 +284,8 @@ pub fn check_history(kind: usize, h: &[Ev], e: &mut Eng) -> u64 {
     applied
 }
 
-pub const SYMS: [Ev; 5] = [Ev::P(0), Ev::P(1), Ev::N, Ev::Er(1), Ev::Er(2)];
+/// the two error values are `Error::Other(1)` and the crate's own `Error::FromNone` (code 0)
+pub const SYMS: [Ev; 5] = [Ev::P(0), Ev::P(1), Ev::N, Ev::Er(1), Ev::Er(0)];
 
 // ---------------------------------------------------------------- freeze
 #[derive(Clone, Copy, Debug, PartialEq, Eq)]
@@ -294,7 +296,7 @@ enum Cond {
     Er,
 }
 const CONDS: [Cond; 4] = [Cond::F, Cond::T, Cond::N, Cond::Er];
-const FIN: [Ev; 4] = [Ev::P(0), Ev::P(1), Ev::N, Ev::Er(2)];
+const FIN: [Ev; 4] = [Ev::P(0), Ev::P(1), Ev::N, Ev::Er(0)];
 
 fn freeze_history(seq: &[usize], e: &mut Eng) -> u64 {
     let n = seq.len();
@@ -321,7 +323,7 @@ fn freeze_history(seq: &[usize], e: &mut Eng) -> u64 {
             let input: Output<f32, E> = match FIN[s % 4] {
                 Ev::P(i) => Ok(Some(Datum::new(Time(t - 1), VALS[i] + k as f32))),
                 Ev::N => Ok(None),
-                Ev::Er(c) => Err(Error::Other(c)),
+                Ev::Er(c) => Err(err_val(c)),
             };
             inp.borrow_mut().next = input.clone();
             let u = fz.update();
@@ -396,7 +398,7 @@ pub fn run(ctx: &Ctx) -> Vec<Eng> {
     let mut engines = Vec::new();
     let mut e1 = Eng::new(
         "c05-seqs",
-        "all histories of exactly `depth` events over {P(1), P(-2), N, E1, E2} (clock +1 s per event; every shorter history is a prefix and is judged at every step) for each of 15 stateful stream variants (the deviation engine adds two moving averages whose window outlasts the whole history); oracles: no stale error, reset == fresh real stream on the suffix (bit equality of update and get results), deletion of ignored absent events, get purity with the input poisoned between calls, lazy-get run; non-trivial = history with a recovery after a reset event or with deleted absent events",
+        "all histories of exactly `depth` events over {P(1), P(-2), N, E1 = Other(1), E2 = the crate's own FromNone} (clock +1 s per event; every shorter history is a prefix and is judged at every step) for each of 15 stateful stream variants (the deviation engine adds two moving averages whose window outlasts the whole history); oracles: no stale error, reset == fresh real stream on the suffix (bit equality of update and get results), deletion of ignored absent events, get purity with the input poisoned between calls, lazy-get run; non-trivial = history with a recovery after a reset event or with deleted absent events",
         &format!("depth {} => 5^{} histories x 15 streams", depth, depth),
     );
     for kind in 0..15 {
@@ -412,7 +414,7 @@ pub fn run(ctx: &Ctx) -> Vec<Eng> {
     let (hz, k) = if ctx.thorough { (48, 3) } else { (40, 2) };
     let mut e2 = Eng::new(
         "c05-deviations",
-        "all histories of exactly H events that differ from the default stream (alternating present samples) in at most k positions, each deviation being one of {N, E1, E2, repeated value}; same oracles as c05-seqs; non-trivial as above",
+        "all histories of exactly H events that differ from the default stream (alternating present samples) in at most k positions, each deviation being one of {N, E1, FromNone, repeated value}; same oracles as c05-seqs; non-trivial as above",
         &format!("H={} k={} x 17 streams", hz, k),
     );
     let cases = deviation_cases(hz, 4, k);
@@ -423,7 +425,7 @@ pub fn run(ctx: &Ctx) -> Vec<Eng> {
                 h[p as usize] = match a {
                     0 => Ev::N,
                     1 => Ev::Er(1),
-                    2 => Ev::Er(2),
+                    2 => Ev::Er(0),
                     _ => Ev::P((p as usize + 1) % 2),
                 };
             }
@@ -441,7 +443,7 @@ pub fn run(ctx: &Ctx) -> Vec<Eng> {
     let (ph, maxp) = if ctx.thorough { (64, 5) } else { (40, 4) };
     let mut e2b = Eng::new(
         "c05-periodic",
-        "periodic histories: every primitive word of length <= p over {P(1), P(-2), N, E1, E2} repeated to H events, and every history differing from one of these in exactly one position; same oracles as c05-seqs (long runs with many resets / errors in a regular pattern)",
+        "periodic histories: every primitive word of length <= p over {P(1), P(-2), N, E1 = Other(1), E2 = the crate's own FromNone} repeated to H events, and every history differing from one of these in exactly one position; same oracles as c05-seqs (long runs with many resets / errors in a regular pattern)",
         &format!("H={} p<={} => {} histories x 17 streams", ph, maxp, periodic_count(5, maxp, ph)),
     );
     for kind in 0..17 {
@@ -469,7 +471,7 @@ pub fn run(ctx: &Ctx) -> Vec<Eng> {
     let fdepth = if ctx.thorough { 6 } else { 4 };
     let mut e3 = Eng::new(
         "c05-freeze",
-        "all histories of exactly `depth` rounds over condition {false,true,absent,E1} x input {P,P',absent,E2}; reference machine: condition false => get == what the input returned now; true after a false (possibly through more trues) => unchanged; absent => Ok(None); steps after an absent/erroring condition until the next false are unconstrained; get purity with both inputs poisoned; non-trivial = history in which a constrained freeze step occurs",
+        "all histories of exactly `depth` rounds over condition {false,true,absent,E1} x input {P,P',absent,FromNone}; reference machine: condition false => get == what the input returned now; true after a false (possibly through more trues) => unchanged; absent => Ok(None); steps after an absent/erroring condition until the next false are unconstrained; get purity with both inputs poisoned; non-trivial = history in which a constrained freeze step occurs",
         &format!("depth {} => 16^{} histories", fdepth, fdepth),
     );
     par_seqs(&mut e3, 16, fdepth, budget, |seq, e| {
